@@ -160,9 +160,12 @@ func UnmarshalStreaming(r io.Reader, decFn Decoder, bind interface{}, typ schema
 	}
 	// ... but our approach above allocated new memory, and we have to copy it back out.
 	// In the future, the bindnode API could be improved to make this easier.
-	if !reflect.ValueOf(bind).IsNil() {
-		reflect.ValueOf(bind).Elem().Set(reflect.ValueOf(bindnode.Unwrap(n)).Elem())
+	if reflect.ValueOf(bind).IsNil() {
+		// Nothing to copy into and nothing to re-bind: the node we built already is
+		// the result, and bindnode.Unwrap on it yields a value of the type of 'bind'.
+		return n, nil
 	}
+	reflect.ValueOf(bind).Elem().Set(reflect.ValueOf(bindnode.Unwrap(n)).Elem())
 	// ... and we also have to re-bind a new node to the 'bind' value,
 	// because probably the user will be surprised if mutating 'bind' doesn't affect the Node later.
 	n = bindnode.Wrap(bind, typ, opts...)
